@@ -15,6 +15,11 @@ STUB = ["file system (SimFS) for write-then-read copies", "read chunking", "iden
         "injected structural fault on the replica (F13)"]
 
 
+@oplang.op("prop_edit_inplace")
+def _(w, e):
+    need(w, e["on"])["EDIF.properties"][e["k"]]["value"] = e["v"]
+
+
 @oplang.op("compare")
 def _(w, e):
     from spydrnet.compare.compare_netlists import Comparer
@@ -240,7 +245,11 @@ class Mutator:
         pl = copy.deepcopy(i["EDIF.properties"])
         k = self.r.randrange(len(pl))
         v = pl[k]["value"]
-        pl[k]["value"] = (v + "_x") if isinstance(v, str) else ((not v) if isinstance(v, bool) else v + 1)
+        nv = (v + "_x") if isinstance(v, str) else ((not v) if isinstance(v, bool) else v + 1)
+        if self.r.random() < 0.5:
+            # the record is edited where it is (the way user code does:  inst["EDIF.properties"][k]["value"] = ...)
+            return [{"op": "prop_edit_inplace", "on": self.hd(i), "k": k, "v": nv}]
+        pl[k]["value"] = nv
         return [{"op": "data_set", "on": self.hd(i), "key": "EDIF.properties", "v": pl}]
 
     def m_property_added(self):
